@@ -99,6 +99,12 @@ def cases(tier, seed):
         for jt in itertools.product(["revolute", "prismatic", "floating", "fixed"], repeat=n - 1):
             for root in ("fixed_generic", "floating"):
                 out.append(mk(shape, ("fixed",) + jt, root, "generic", "generic", "generic", special="massless_first_child"))
+    # links WITH an inertial origin followed by links WITHOUT one (values of the previous link must not be inherited; seeded C28-m)
+    for shape in ("chain1", "chain2", "fork2", "star3"):
+        n = len(SHAPES[shape])
+        for jt in itertools.product(["revolute", "prismatic", "fixed"], repeat=n):
+            for root in ("fixed_generic", "floating"):
+                out.append(mk(shape, jt, root, "generic", "generic", "mixed"))
     # a joint that carries the name of a link declared later (different name spaces in URDF)
     for shape in ("chain2", "fork2"):
         n = len(SHAPES[shape])
@@ -242,7 +248,7 @@ def _model(case):
         m["mass"].append(0.5 + 0.3 * i)
         th = 0.01 * np.array([[2.0 + i, 0.3, -0.2], [0.3, 3.0, 0.4], [-0.2, 0.4, 2.5 + 0.5 * i]])
         m["theta"].append(th)
-        if case["inertial"] == "absent":
+        if case["inertial"] == "absent" or (case["inertial"] == "mixed" and i % 2 == 1):
             m["i_xyz"].append(np.zeros(3))
             m["i_rpy"].append(np.zeros(3))
             m["i_present"].append(False)
@@ -488,12 +494,18 @@ def check(case):
             evals += 1
             fl_kinds = sorted(set(kinds.values()))
             try:
+                cfg_in = {k: (v.copy() if hasattr(v, "copy") else v) for k, v in cfg.items()}
+                vel_in = {k: (v.copy() if hasattr(v, "copy") else v) for k, v in vel.items()}
                 with quiet():
                     system = system_from_urdf(
                         path, r_OR=m["r_OR"].copy(), A_IR=m["A_IR"].copy(), v_R=m["v_R"].copy(), R_omega_IR=m["R_om"].copy(),
-                        configuration={k: (v.copy() if hasattr(v, "copy") else v) for k, v in cfg.items()},
-                        velocities={k: (v.copy() if hasattr(v, "copy") else v) for k, v in vel.items()},
+                        configuration=cfg_in, velocities=vel_in,
                         root_is_floating=m["root_floating"], gravitational_acceleration=m["grav"].copy())
+                # the caller's dictionaries are inputs: an import must leave them as they were (they are reused for the next import)
+                for nm_, d_in, d_ref in (("configuration", cfg_in, cfg), ("velocities", vel_in, vel)):
+                    same = sorted(d_in) == sorted(d_ref) and all(np.array_equal(np.asarray(d_in[k]), np.asarray(d_ref[k])) for k in d_ref)
+                    if not same:
+                        fail("import modifies the caller's " + nm_ + " dictionary", f"state={s}: keys {sorted(d_in)} vs {sorted(d_ref)}", state=s, which=nm_)
             except Exception as e:  # classified: a valid URDF of the alphabet must import
                 stats["n_import_raises"] += 1
                 outcomes.add("raises:" + type(e).__name__)
